@@ -35,6 +35,20 @@ def main(tier, seed, replay):
     ck.cov["kms_cells_with_context_ending_during_a_call"] = sum(1 for c in kcases if c.get("cancel"))
     if bad:
         ck.violation(ck.replay_file("kms", {"what": bad[0]["viol"], "Case": bad[0]}))
+    # secure-memory release failures: WithBytesFunc hands back the callback's result TOGETHER WITH an error (what protectedmemory and memguard
+    # do when the protection change after the callback fails); whatever the SDK does with that pair, the decrypted key bytes must be wiped.
+    # These histories are judged by the wipe monitor alone (the envelope model has no such fault).
+    rcases = envcheck.run_harness(ck, "env", [["-seed", str(seed + 5), "-n", str(n // 2), "-x", "relfail"]])
+    if rcases is None:
+        return ck.finish()
+    rv = list(envcheck.MONITORS["C10"](rcases))
+    ck.cov["histories_with_release_failures"] = len(rcases)
+    ck.cov["operations_with_a_release_failure"] = sum(1 for c in rcases for o in c["ops"] if o.get("relfail") is not None)
+    ck.oblige(not rv, "no plaintext key buffer survives an operation in which a secure-memory release failed (%d histories)" % len(rcases), str(rv[:1])[:1500])
+    if rv:
+        v = rv[0]
+        ck.violation(ck.replay_file("relfail", {"what": v["what"], "failing_op": v["op"], "Case": envcheck.shrink_ops(rcases[v["case"]], v["op"]),
+                                                "observed": rcases[v["case"]]["obs"][v["op"]]}))
     cases = envcheck.run_harness(ck, "env", [["-seed", str(seed), "-n", str(n)]])
     if cases is None:
         return ck.finish()
